@@ -431,3 +431,94 @@ func (m *Model) algorithmUnit(tk *TreeKind, name string) *FuncUnit {
 	}
 	return u
 }
+
+
+// pushCall recognises a push onto a slice-typed stack: `q = append(q, e)` (as an assignment) or
+// `q.push(e)` where push is a method with a pointer receiver of a slice type whose body is
+// `*s = append(*s, x)`. It returns the stack variable and the pushed expression.
+func (m *Model) pushCall(n ast.Node) (*types.Var, ast.Expr, bool) {
+	info := m.Info
+	switch x := n.(type) {
+	case *ast.AssignStmt:
+		if len(x.Lhs) == 1 && len(x.Rhs) == 1 {
+			if call, ok := ast.Unparen(x.Rhs[0]).(*ast.CallExpr); ok && isBuiltinCall(info, call, "append") && len(call.Args) == 2 && !call.Ellipsis.IsValid() {
+				if v := identVar(info, x.Lhs[0]); v != nil && identVar(info, call.Args[0]) == v {
+					return v, call.Args[1], true
+				}
+			}
+		}
+	case *ast.ExprStmt:
+		if call, ok := x.X.(*ast.CallExpr); ok {
+			return m.pushCall(call)
+		}
+	case *ast.CallExpr:
+		sel, ok := ast.Unparen(x.Fun).(*ast.SelectorExpr)
+		if !ok || len(x.Args) != 1 {
+			return nil, nil, false
+		}
+		cu := m.calleeUnit(x)
+		if cu == nil || cu.Lit != nil || cu.Body == nil || len(cu.Body.List) != 1 || cu.Decl == nil || cu.Decl.Recv == nil {
+			return nil, nil, false
+		}
+		as, ok := cu.Body.List[0].(*ast.AssignStmt)
+		if !ok || len(as.Lhs) != 1 || len(as.Rhs) != 1 {
+			return nil, nil, false
+		}
+		lst, ok := ast.Unparen(as.Lhs[0]).(*ast.StarExpr)
+		if !ok {
+			return nil, nil, false
+		}
+		ap, ok := ast.Unparen(as.Rhs[0]).(*ast.CallExpr)
+		if !ok || !isBuiltinCall(info, ap, "append") || len(ap.Args) != 2 {
+			return nil, nil, false
+		}
+		rst, ok := ast.Unparen(ap.Args[0]).(*ast.StarExpr)
+		if !ok || identVar(info, lst.X) == nil || identVar(info, lst.X) != identVar(info, rst.X) {
+			return nil, nil, false
+		}
+		if pid, ok := ast.Unparen(ap.Args[1]).(*ast.Ident); !ok || m.paramIndex(cu, pid) != 0 {
+			return nil, nil, false
+		}
+		if v := identVar(info, sel.X); v != nil {
+			return v, x.Args[0], true
+		}
+	}
+	return nil, nil, false
+}
+
+// popCall recognises `q.pop()` where pop is a method with a pointer receiver of a slice type that
+// returns the last element and shortens the slice by one.
+func (m *Model) popCall(call *ast.CallExpr) (*types.Var, bool) {
+	info := m.Info
+	sel, ok := ast.Unparen(call.Fun).(*ast.SelectorExpr)
+	if !ok || len(call.Args) != 0 {
+		return nil, false
+	}
+	cu := m.calleeUnit(call)
+	if cu == nil || cu.Lit != nil || cu.Body == nil || cu.Decl == nil || cu.Decl.Recv == nil {
+		return nil, false
+	}
+	shortens, returnsElem := false, false
+	ast.Inspect(cu.Body, func(n ast.Node) bool {
+		switch x := n.(type) {
+		case *ast.AssignStmt:
+			if len(x.Lhs) == 1 && len(x.Rhs) == 1 {
+				if _, isStar := ast.Unparen(x.Lhs[0]).(*ast.StarExpr); isStar {
+					if se, ok := ast.Unparen(x.Rhs[0]).(*ast.SliceExpr); ok && se.Low == nil && se.High != nil {
+						shortens = true
+					}
+				}
+			}
+		case *ast.ReturnStmt:
+			if len(x.Results) == 1 {
+				returnsElem = true
+			}
+		}
+		return true
+	})
+	if !shortens || !returnsElem {
+		return nil, false
+	}
+	v := identVar(info, sel.X)
+	return v, v != nil
+}
